@@ -24,7 +24,7 @@ KEY_FORMS = ["name", "dotted", "tuple", "chain", "rel_dotted", "rel_tuple"]
 
 
 class Node:
-    __slots__ = ("kind", "uid", "name", "children", "tstr", "tobj", "parent", "pyi", "top_in")
+    __slots__ = ("kind", "uid", "name", "children", "tstr", "tobj", "parent", "pyi", "top_in", "ns")
 
     def __init__(self, kind, uid, name):
         self.kind = kind
@@ -35,6 +35,7 @@ class Node:
         self.tobj = None  # alias: uid of object target (as constructed / last retargeted), None if unresolved
         self.parent = None
         self.pyi = False  # module loaded from a stubs file
+        self.ns = False  # module with a list of directories as file path (namespace package)
         self.top_in = set()  # uids of the collections in which this node has been a top-level module
 
 
@@ -114,6 +115,8 @@ def _gen_value(rng, model, container_path, swarm):
         name = rng.choice(TOPS + ["a"])
         if swarm.get("stub_modules") and rng.random() < 0.4:
             return {"new": "module", "name": name, "pyi": rng.random() < 0.6, "filled": True}
+        if swarm.get("stub_modules") and rng.random() < 0.3:
+            return {"new": "module", "name": name, "ns": True}
         return {"new": "module", "name": name}
     name = rng.choice(NAMES)
     if r < swarm["p_detached"] + swarm["p_alias"]:
@@ -125,6 +128,8 @@ def _gen_value(rng, model, container_path, swarm):
         return {"new": "alias", "name": name, "tobj": _gen_path(rng, model, non_alias=rng.random() < 0.8)}
     kind = rng.choice(KINDS[1:] if rng.random() < 0.8 else KINDS)
     spec = {"new": kind, "name": name}
+    if swarm.get("stub_modules") and rng.random() < 0.15:
+        return {"new": "module", "name": name, "ns": True}  # a namespace (sub-)package: its file path is a list of directories
     if swarm.get("stub_modules") and rng.random() < 0.35:
         # a module read from a .pyi file, with a few members: set_member merges it with a regular module of that name
         return {"new": "module", "name": name, "pyi": True, "filled": True}
@@ -330,7 +335,10 @@ class Executor:
                 else:
                     real = g.Alias(name, node.tstr, **kw)
             elif kind == "module":
-                real = g.Module(name, filepath=Path(f"/nonexistent/u{node.uid}/{name}.{'pyi' if spec.get('pyi') else 'py'}"), **kw)
+                if spec.get("ns"):
+                    real = g.Module(name, filepath=[Path(f"/nonexistent/u{node.uid}a/{name}"), Path(f"/nonexistent/u{node.uid}b/{name}")], **kw)
+                else:
+                    real = g.Module(name, filepath=Path(f"/nonexistent/u{node.uid}/{name}.{'pyi' if spec.get('pyi') else 'py'}"), **kw)
             elif kind == "class":
                 real = g.Class(name, bases=list(spec.get("bases", [])), **kw)
                 if spec.get("bases"):
@@ -344,6 +352,7 @@ class Executor:
             self.objs[node.uid] = real
             self.uids[id(real)] = node.uid
         if kind == "module":
+            node.ns = bool(spec.get("ns"))
             node.pyi = bool(spec.get("pyi"))
             if spec.get("filled"):
                 self._fill_module(node, real)
@@ -408,7 +417,15 @@ class Executor:
             if ctx:
                 ctx.log("skip", "container path traverses an alias")
             return
-        node, real, tags = self.make_value(op["value"], on, container)
+        try:
+            node, real, tags = self.make_value(op["value"], on, container)
+        except Exception as e:  # noqa: BLE001
+            if self.model_only or ctx is None:
+                raise
+            # building an alias on an object registers it there, which can dereference other aliases: alias errors
+            # are swallowed by the constructor, anything else is a defect of the code under test, not of the harness
+            ctx.fail("I7-construct", f"constructing the value {op['value']} raised {type(e).__name__}: {e}", exc=e)
+            return
         path = on + [node.name]
         base_path, key = self.key_and_base(op["form"], path)
         expect = "ok" if container is not None else "KeyError"
@@ -421,7 +438,7 @@ class Executor:
         # set_member merges a module with a stubs module of the same name (implicit .pyi support): the stubs
         # module's own members move into the regular one, which keeps (or takes) the slot; item assignment does not
         merged_into = stubs = None
-        if expect == "ok" and old is not None and old is not node and old.kind == "module" and node.kind == "module" and op["api"] == "set_member" and (old.pyi or node.pyi):
+        if expect == "ok" and old is not None and old is not node and old.kind == "module" and node.kind == "module" and op["api"] == "set_member" and (old.pyi or node.pyi) and not old.ns and not node.ns:  # a namespace package (list of directories) has no module file to merge stubs with
             merged_into, stubs = (node, old) if old.pyi else (old, node)
             if _merge_meets_alias(merged_into, stubs):
                 if ctx:
@@ -1069,6 +1086,14 @@ class Executor:
                     yield from rec(mem, (*path, name))
 
         yield from rec(self.coll, ())
+
+
+def _is_namespace(m, node):
+    """Module.is_namespace_package / is_namespace_subpackage for a node of the model."""
+    if not node.ns:
+        return False
+    par = node.parent
+    return par is None or par.kind == "collection" or (par.kind == "module" and _is_namespace(m, par))
 
 
 def _merge_meets_alias(regular, stubs):
